@@ -9386,6 +9386,18 @@ class SVG(Group):
                     s.render(ppi=ppi, width=width, height=height)
                     clip += 1
                 elif SVG_TAG_USE == tag:
+                    # x and y become a translate inside the transform list: resolve percentages (of the
+                    # viewport) and physical units now, a symbolic length cannot be composed with other functions.
+                    for attr, ref in ((SVG_ATTR_X, width), (SVG_ATTR_Y, height)):
+                        if attr in values:
+                            try:
+                                v = Length(values[attr]).value(
+                                    ppi=ppi, relative_length=ref
+                                )
+                                if not isinstance(v, Length):
+                                    values[attr] = v
+                            except ValueError:
+                                pass
                     s = Use(values)
                     if SVG_ATTR_TRANSFORM in s.values:
                         # Update value in case x or y applied.
